@@ -219,6 +219,71 @@ def mk_cast(t, u, n):
                    [{'kind': 'equal', 'a': 'r', 'b': 'rref', 'cells': n, 'mode': 'EXACT'}])
 
 
+def mk_cplx(t, abi, name):
+    """members and free functions specific to the complex vectors (real and imaginary parts in two registers): explicit (re,im) references"""
+    cell, per = CELL[t]; n = lanes(t, abi); ct = CTYPE[t]; cc = CTYPE[cell]
+    rabi = abi_cxx(abi)
+    head = 'using T = %s; using R = %s; using V = SIMDVector<T,%s>; V x(a,false), y(b,false);' % (ct, cc, rabi)
+    rv = 'SIMDVector<R,%s>' % rabi
+    outn, outt, mode = n, cell, 'ALG'
+    if name == 'norm':
+        fast, ref = '%s z = x.norm(); z.store(r,false);' % rv, 'r[i] = A[2*i]*A[2*i] + A[2*i+1]*A[2*i+1];'
+    elif name == 'magnitude':
+        fast, ref = '%s z = x.magnitude(); z.store(r,false);' % rv, 'r[i] = std::sqrt(A[2*i]*A[2*i] + A[2*i+1]*A[2*i+1]);'
+    elif name == 'real':
+        fast, ref, mode = '%s z = x.real(); z.store(r,false);' % rv, 'r[i] = A[2*i];', 'EXACT'
+    elif name == 'imag':
+        fast, ref, mode = '%s z = x.imag(); z.store(r,false);' % rv, 'r[i] = A[2*i+1];', 'EXACT'
+    elif name == 'conj':
+        fast, ref, mode, outn = 'V z = conj(x); z.store((T*)r,false);', 'r[2*i] = A[2*i]; r[2*i+1] = -A[2*i+1];', 'EXACT', 2 * n
+    elif name == 'reverse':
+        fast, ref, mode, outn = 'V z = x.reverse(); z.store((T*)r,false);', 'r[2*i] = A[2*(%d-i)]; r[2*i+1] = A[2*(%d-i)+1];' % (n - 1, n - 1), 'EXACT', 2 * n
+    elif name == 'mul_real':
+        fast, ref, outn = 'V z = x * s; z.store((T*)r,false);', 'r[2*i] = A[2*i]*s; r[2*i+1] = A[2*i+1]*s;', 2 * n
+    elif name == 'real_mul':
+        fast, ref, outn = 'V z = s * x; z.store((T*)r,false);', 'r[2*i] = s*A[2*i]; r[2*i+1] = s*A[2*i+1];', 2 * n
+    elif name == 'div_real':
+        fast, ref, outn = 'V z = x / s; z.store((T*)r,false);', 'r[2*i] = A[2*i]/s; r[2*i+1] = A[2*i+1]/s;', 2 * n
+    elif name in ('sum', 'dot', 'product'):
+        outn = 2
+        if name == 'sum':
+            fast, ref = 'T h = x.sum(); r[0] = h.real(); r[1] = h.imag();', None
+            body = 'R hr=0, hi=0; for(int i=0;i<%d;i++){ hr += A[2*i]; hi += A[2*i+1]; } r[0]=hr; r[1]=hi;' % n
+        elif name == 'dot':
+            fast = 'T h = x.dot(y); r[0] = h.real(); r[1] = h.imag();'
+            body = 'R hr=0, hi=0; for(int i=0;i<%d;i++){ hr += A[2*i]*B[2*i] - A[2*i+1]*B[2*i+1]; hi += A[2*i]*B[2*i+1] + A[2*i+1]*B[2*i]; } r[0]=hr; r[1]=hi;' % n
+        else:
+            fast = 'T h = x.product(); r[0] = h.real(); r[1] = h.imag();'
+            body = 'R hr=1, hi=0; for(int i=0;i<%d;i++){ R pr = hr*A[2*i] - hi*A[2*i+1]; R pi = hr*A[2*i+1] + hi*A[2*i]; hr = pr; hi = pi; } r[0]=hr; r[1]=hi;' % n
+        ref = None
+    wit = 'extern "C" void @W@(const %s* a, const %s* b, %s s, %s* r){ %s %s }' % (ct, ct, cc, cc, head, fast)
+    if ref is not None:
+        body = 'for(int i=0;i<%d;i++){ %s }' % (n, ref)
+    refs = 'extern "C" void @R@(const %s* A, const %s* B, %s s, %s* r){ typedef %s R; %s }' % (cc, cc, cc, cc, cc, body)
+    regions = [rreg('a', t, n, role='in', init='sym'), rreg('b', t, n, role='in', init='sym'), rreg('s', cell, 1, role='in', init='sym'), rreg('r', cell, outn, role='out'), rreg('rref', cell, outn)]
+    return Witness('simd_%s_%s_c_%s' % (t, abi, name), 'simd.complex.' + name, {'type': t, 'abi': abi, 'op': 'c_' + name, 'lanes': n}, wit, refs, regions,
+                   [{'mod': 'wit', 'fn': '@W@', 'args': ['a', 'b', {'scalar': 's'}, 'r']}, {'mod': 'ref', 'fn': '@R@', 'args': ['a', 'b', {'scalar': 's'}, 'rref']}],
+                   [{'kind': 'equal', 'a': 'r', 'b': 'rref', 'cells': outn, 'mode': mode}])
+
+
+def mk_cmask(t, abi, which):
+    """mask_load / mask_store of the complex vectors with a symbolic mask: bit i enables complex lane i"""
+    cell, per = CELL[t]; n = lanes(t, abi); ct = CTYPE[t]; cc = CTYPE[cell]
+    mt, mct = ('i16', 'uint16_t') if n > 8 else ('i8', 'uint8_t')
+    if which == 'store':
+        wit = 'extern "C" void @W@(const %s* a, %s m, %s* r){ using V = SIMDVector<%s,%s>; V x(a,false); x.mask_store(r, m, false); }' % (ct, mct, ct, ct, abi_cxx(abi))
+        ref = 'extern "C" void @R@(const %s* a, %s m, %s* r){ for(int i=0;i<%d;i++) if((m>>i)&1){ r[2*i]=a[2*i]; r[2*i+1]=a[2*i+1]; } }' % (cc, mct, cc, n)
+        rrole, rinit = 'inout', 'sym'
+    else:
+        wit = 'extern "C" void @W@(const %s* a, %s m, %s* r){ using V = SIMDVector<%s,%s>; V x; x.mask_load(a, m, false); x.store(r,false); }' % (ct, mct, ct, ct, abi_cxx(abi))
+        ref = 'extern "C" void @R@(const %s* a, %s m, %s* r){ for(int i=0;i<%d;i++){ r[2*i] = ((m>>i)&1) ? a[2*i] : (%s)0; r[2*i+1] = ((m>>i)&1) ? a[2*i+1] : (%s)0; } }' % (cc, mct, cc, n, cc, cc)
+        rrole, rinit = 'out', 'undef'
+    regions = [rreg('a', t, n, role='in', init='sym'), {'name': 'm', 'ety': mt, 'cells': 1, 'kind': 'raw', 'role': 'in', 'init': 'sym'}, rreg('r', t, n, role=rrole, init=rinit), rreg('rref', t, n, init=rinit, ns='r')]
+    return Witness('simd_%s_%s_cmask_%s' % (t, abi, which), 'simd.complex.mask_' + which, {'type': t, 'abi': abi, 'op': 'cmask_' + which, 'lanes': n}, wit, ref, regions,
+                   [{'mod': 'wit', 'fn': '@W@', 'args': ['a', {'scalar': 'm'}, 'r']}, {'mod': 'ref', 'fn': '@R@', 'args': ['a', {'scalar': 'm'}, 'rref']}],
+                   [{'kind': 'equal', 'a': 'r', 'b': 'rref', 'cells': 2 * n, 'mode': 'EXACT'}])
+
+
 def witnesses(tier, seed, isa='avx512'):
     W = []
     for t in ('f32', 'f64', 'i32', 'i64', 'c64', 'c128'):
@@ -233,6 +298,11 @@ def witnesses(tier, seed, isa='avx512'):
                     W.append(mk(t, abi, name, op, alt='formula')); W.append(mk(t, abi, name, op, alt='std'))
                 else:
                     W.append(mk(t, abi, name, op))
+            if t in ('c64', 'c128'):
+                for nm in ('norm', 'magnitude', 'real', 'imag', 'conj', 'reverse', 'sum', 'dot', 'product'):   # mixed real-scalar operators exist for the native specialisations only: not part of the common interface
+                    W.append(mk_cplx(t, abi, nm))
+                if abi in ('sse', 'avx', 'avx512') and lanes(t, abi) <= 8 and (abi != 'avx512' or isa == 'avx512'):
+                    W.append(mk_cmask(t, abi, 'load')); W.append(mk_cmask(t, abi, 'store'))
             if t not in ('c64', 'c128'):
                 for cname in CMPS:
                     for form in ('vv', 'vs', 'sv'):
